@@ -5,7 +5,7 @@ from .. import world as W
 from . import _ws
 
 ID = 'C01'
-TIERS = {'quick': {'seeds': 15000, 'seconds': 75, 'determinism': 48},
+TIERS = {'quick': {'seeds': 15000, 'seconds': 45, 'determinism': 48},
          'thorough': {'seconds': 900, 'determinism': 512, 'minimise_s': 120}}
 RULE = ('seeded layer DAGs (<= 6 layers, multiple inheritance, class/instance layers, hooks '
         'present/absent) with injected setUp/tearDown exceptions and NotImplementedError tearDowns '
